@@ -4,6 +4,8 @@ proof:          lean/PymtlVerif/Props/C01.lean (abstract: Proofs/Sched.lean; bri
 correspondence: random acyclic RTL designs x {Default(Dynamic), Simple, HeuTopoUnroll, Mamba2020, Unroll} pass groups
                 x forced random linear extensions of the real constraint graph x ff-block permutations x input
                 sequences; every signal after every sim_eval_combinational() and sim_tick() vs Model/Rtl.lean
+                + library stream (c01_lib.py): real pymtl3/stdlib and examples components, their model form REGENERATED
+                from the live objects / block sources on every run (common/pymtl2rtl.py), same comparison
 direct oracle:  (1) all legal schedules give identical values, (2) re-running any comb block changes nothing,
                 (3) values equal an independent Python evaluation of the dataflow equations (rtlgen.RefSim)
 """
@@ -11,6 +13,7 @@ import os
 
 from ..common import leanio, rtlgen
 from ..common.leanio import InfraError
+from . import c01_lib
 
 PID = 'C01'
 DRIVERS = ['rtl']
@@ -22,6 +25,9 @@ TRUSTED = [
   'Model/Rtl.lean: signals as bit vectors, blocks as assignment lists, nets as blocks, if/else presented as mux by the harness (rtlgen.py)',
   'driver glue ofTab/commit (table <-> bit-level state) in Driver/Rtl.lean is outside the theorems',
   'the five scheduling passes are not modelled as algorithms: their schedules are checked (topoB) and executed',
+  'library stream: harness/common/pymtl2rtl.py (symbolic execution of update-block ASTs with PythonBits semantics into Model/Rtl.lean '
+  'assignments; large shared sub-expressions bound to virtual wires with their own virtual comb blocks) is trusted glue; it is cross-checked '
+  'on every run by an independent Python evaluation of the translated dataflow (c01_lib.LibRefSim) against the real simulation',
 ]
 ASSUMPTIONS = [
   'designs within the generated language: Bits signals, constant slices, one level of sub-components, nets, update/update_ff blocks; '
@@ -29,7 +35,11 @@ ASSUMPTIONS = [
 ]
 RULE = ('random single-writer acyclic designs (2-10 comb blocks incl. nets, 0-3 registers, 0-2 children) from one PRNG; each is run under 5 pass '
         'groups + forced random linear extensions and ff permutations for 6-10 cycles of boundary-biased inputs; a case = (design, schedule); '
-        'non-trivial = the design has >= 2 legal comb orders or >= 1 register; distinct = distinct (design source, order)')
+        'non-trivial = the design has >= 2 legal comb orders or >= 1 register; distinct = distinct (design source, order); '
+        'library stream: the fixed list c01_lib.designs(tier) of stdlib/examples components (arbiters, crossbars, encoders, muxes, registers, '
+        'register files, en/rdy and val/rdy queues over Bits and bitstruct messages, ex02 checksum, ex03 processor pieces and the whole ProcRTL), '
+        'each translated from its live objects, run under the DefaultPassGroup schedule and forced random linear extensions, inputs from a PRNG '
+        'derived from the same seed after the generated stream; a case = (design, schedule, input sequence)')
 
 FLOWS = ['default', 'simple', 'heutopo', 'mamba', 'unroll']
 
@@ -148,6 +158,8 @@ def run(ck):
   ck.extra_cov['rejected_examples'] = [r['error'] for r in ck.rejected[:3]]
   if len(ck.rejected) > done // 4:
     raise InfraError(f'too many generated designs rejected: {len(ck.rejected)}/{done}: {ck.rejected[0]}')
+  # real library designs, model form regenerated from /repo by common/pymtl2rtl.py (after the generated stream: its PRNG draws are unchanged)
+  c01_lib.run_library(ck)
 
 def replay(ck, data):
   print(data.get('kind'), data.get('signature')); print(str(data.get('detail'))[:1500])
